@@ -251,10 +251,10 @@ func gen(seed uint64, tier string) {
 			fmt.Fprintf(out, "x %s %d %d | %s\n", k, runs, r.U64()%1000000, c)
 		}
 	}
+	g := docGen{r, 0, 4}
 	for _, c := range boundsCorpus {
 		fmt.Fprintf(out, "x %s %d %d | %s\n", c[0], runs, r.U64()%1000000, c[1])
 	}
-	g := docGen{r, 0, 4}
 	for i := 0; i < ndocs; i++ {
 		n := 5 + r.Intn(maxObjs-4)
 		if i%3 == 0 {
@@ -273,6 +273,86 @@ func gen(seed uint64, tier string) {
 			}
 			fmt.Fprintln(out, docLine(k, rn, r.U64()%1000000, objs))
 		}
+	}
+	// deep chains of nested relations: r1 > r2 > ... > rD > n1, selected only through the outermost relation
+	// (tags) or only through the innermost node (bounds); innermost-first and outermost-first in the file; filler
+	// nodes in between.  The fixpoint needs about D passes (the model's pass count is compared exactly).
+	depths := []int{33, 40, 64}
+	if tier == "thorough" {
+		depths = []int{33, 40, 64, 100}
+	}
+	for _, d := range depths {
+		for _, innerFirst := range []bool{true, false} {
+			var rels, fill []obj
+			for i := 1; i <= d; i++ {
+				o := obj{ref: ref{'r', int64(i)}}
+				if i < d {
+					o.refs = []ref{{'r', int64(i + 1)}}
+				} else {
+					o.refs = []ref{{'n', 1}}
+				}
+				if i == 1 {
+					o.tags = [][2]int{{1, 1}}
+				}
+				if innerFirst {
+					rels = append([]obj{o}, rels...)
+				} else {
+					rels = append(rels, o)
+				}
+			}
+			for i := 2; i <= 6; i++ {
+				fill = append(fill, obj{ref: ref{'n', int64(i)}, x: 9, y: 9})
+			}
+			n1 := obj{ref: ref{'n', 1}, x: 1, y: 1}
+			docA := append(append(append([]obj{}, rels...), fill...), n1) // relations, then nodes
+			docB := append(append(append([]obj{}, fill...), n1), rels...) // nodes, then relations
+			doc := docA
+			if d%2 == 0 {
+				doc = docB
+			}
+			fmt.Fprintln(out, docLine("tags:1=1", 4, r.U64()%1000000, doc))
+			if d <= 40 || tier == "thorough" {
+				fmt.Fprintln(out, docLine("bounds:0,0,2,2", 4, r.U64()%1000000, doc))
+			}
+		}
+	}
+	// other element types in the file: <bounds> right after <osm> (JOSM, API, Overpass), <note>, <user>; 1, 2, 4, 16 of them
+	withExtras := func(objs []obj, n int, mode int) []obj {
+		kinds := []byte{'B', 'N', 'U'}
+		var ex []obj
+		for i := 0; i < n; i++ {
+			k := byte('B')
+			if mode > 0 {
+				k = kinds[r.Intn(3)]
+			}
+			ex = append(ex, obj{ref: ref{k, 0}})
+		}
+		if mode < 2 { // all at the start of the file
+			return append(ex, objs...)
+		}
+		outp := append([]obj{}, objs...)
+		for _, e := range ex { // scattered
+			i := r.Intn(len(outp) + 1)
+			outp = append(outp[:i], append([]obj{e}, outp[i:]...)...)
+		}
+		return outp
+	}
+	exCounts := []int{1, 2, 4, 16}
+	nex := 12
+	if tier == "thorough" {
+		nex = 40
+	}
+	for i := 0; i < nex; i++ {
+		var objs []obj
+		if i < 4 {
+			_, objs = splitBar(strings.Fields("x | " + corpus[i*3]))
+		} else {
+			g.lo, g.hi = 0, 4
+			objs = g.doc(5+r.Intn(25), false)
+		}
+		doc := withExtras(objs, exCounts[i%4], (i/4)%3)
+		k := []string{g.boundsTok(), "tags:1=1", "all"}[i%3]
+		fmt.Fprintln(out, docLine(k, 8, r.U64()%1000000, doc))
 	}
 	// histories: 2-3 extractions on ONE reader; and extractions cancelled on the n-th rewind
 	objsTok := func(objs []obj) string {
